@@ -25,7 +25,11 @@ func main() {
 	seededJSON := flag.String("seeded-json", "", "results of the seeded-variant self-test (tools/mutants.py --json) to embed in the evidence")
 	describe := flag.Bool("describe", false, "print the properties' claim texts as JSON")
 	writeBaseline := flag.Bool("write-baseline", false, "write baseline_funcs.txt (the private functions of the tree the obligations are confirmed on) and exit")
+	sweep := flag.String("sweep", "", "comma-separated property ids or 'all': load the tree once and print one verdict line per property plus its failing obligations (no evidence, no replay files; for evaluating the checker on variants)")
 	flag.Parse()
+	if *sweep != "" {
+		os.Exit(runSweep(*sweep, *repo, *verif))
+	}
 	if *describe {
 		out := map[string]string{}
 		for _, id := range wm.IDs() {
@@ -194,6 +198,67 @@ func main() {
 		}
 	}
 	os.Exit(out.Print(*verif))
+}
+
+// runSweep decides several properties on one loaded program (default build configuration, quick tier).
+func runSweep(ids, repo, verif string) int {
+	var list []string
+	if ids == "all" {
+		list = wm.IDs()
+	} else {
+		list = strings.Split(ids, ",")
+	}
+	known, err := wm.LoadKnown(verif + "/known_findings.json")
+	if err != nil {
+		fmt.Println("INTERNAL ERROR:", err)
+		return 2
+	}
+	if err := wm.LoadBaseline(verif + "/baseline_funcs.txt"); err != nil {
+		fmt.Println("INTERNAL ERROR: baseline_funcs.txt:", err)
+		return 2
+	}
+	p, err := wm.Load(wm.Config{Dir: repo, Label: "default"})
+	if err != nil {
+		fmt.Println("INTERNAL ERROR: load:", err)
+		return 2
+	}
+	rc := 0
+	for _, id := range list {
+		def := wm.Lookup(id)
+		if def == nil {
+			fmt.Printf("unknown property %q\n", id)
+			return 2
+		}
+		c, err := def.RunOn(p, false)
+		if err != nil {
+			fmt.Printf("SWEEP %s INTERNAL %v\n", id, err)
+			rc = 2
+			continue
+		}
+		if c.Failing(known) > 0 && wm.Baseline != nil {
+			wm.TransparentOn = true
+			wm.ResetTransparent()
+			c2, err2 := def.RunOn(p, false)
+			wm.TransparentOn = false
+			if used := wm.UsedTransparent(); err2 == nil && len(used) > 0 && c2.Failing(known) == 0 {
+				c = c2
+			}
+		}
+		out := &wm.Outcome{Property: id, Tier: "quick", Extra: map[string]any{}}
+		out.Merge(c, known)
+		if len(out.Violations) == 0 {
+			fmt.Printf("SWEEP %s PASS\n", id)
+			continue
+		}
+		if rc == 0 {
+			rc = 1
+		}
+		fmt.Printf("SWEEP %s FAIL %d\n", id, len(out.Violations))
+		for _, ob := range out.Violations {
+			fmt.Printf("%-13s %s %-22s %s %s {%s} — %s\n", ob.Verdict, ob.ID, ob.Rule, ob.Pos, ob.Func, ob.Construct, ob.Why)
+		}
+	}
+	return rc
 }
 
 func isFlagSet(name string) bool {
